@@ -957,6 +957,8 @@ func ruleEveryModeHasWriter(c *Ctx, rule string) {
 		}
 		if makesWriter(fn, args, 0) {
 			ob.OKnt("with the mode fixed to " + name + " a call of files.WriterFrom* stays reachable")
+		} else if at := dynamicFilesCall(c, fn, args); at != "" {
+			ob.Und("with the mode fixed to " + name + " a function value that returns a writer or reader of package files is called at " + at + " (a table of openers): which function that is cannot be followed")
 		} else {
 			ob.Bad("with the mode fixed to " + name + " no call that creates a writer is reachable: the writer stays nil and the first write of a replace command dereferences it (`RunFiles(files, engine." + name + ", false)` with a replace command panics)")
 		}
@@ -2757,4 +2759,33 @@ func naturalLoops(fn *ssa.Function) []natLoop {
 		}
 	}
 	return out
+}
+
+// dynamicFilesCall: in the world of the given arguments the function calls a function *value* whose result is a writer or reader
+// of package files (`openers[mode](filename)`): the position of the call, or "".
+func dynamicFilesCall(c *Ctx, f *ssa.Function, args []wLat) string {
+	w := &World{Fn: f}
+	w.Run(args...)
+	at := ""
+	for _, b := range f.Blocks {
+		if !w.Reach[b] {
+			continue
+		}
+		for _, in := range b.Instrs {
+			call, ok := in.(*ssa.Call)
+			if !ok || call.Call.IsInvoke() || call.Call.StaticCallee() != nil {
+				continue
+			}
+			if _, isBuiltin := call.Call.Value.(*ssa.Builtin); isBuiltin {
+				continue
+			}
+			res := call.Call.Signature().Results()
+			for i := 0; i < res.Len(); i++ {
+				if nt, ok := deref(res.At(i).Type()).(*types.Named); ok && nt.Obj().Pkg() != nil && strings.HasSuffix(nt.Obj().Pkg().Path(), "/libvore/files") {
+					at = c.pos(call.Pos())
+				}
+			}
+		}
+	}
+	return at
 }
